@@ -543,6 +543,20 @@ def run_histories(ctx):
         "stat.sutils.ppos": (lambda: _su.ppos(9), [lambda: _su.ppos(9, 0.5),
                                                    lambda: _su.ppos(3, 0.0)]),
     }
+    # small ensembles in which members of two different forecasts are a sliver apart
+    # (well below the tie tolerance): whether they count as tied decides the score
+    for k_ in range(40):
+        nq, mq = int(r_.integers(4, 9)), int(r_.integers(2, 4))
+        sq = np.round(r_.uniform(0, 10, size=(nq, mq)), 1)
+        for _ in range(int(r_.integers(1, 4))):
+            i_, j_ = sorted(r_.choice(nq, size=2, replace=False))
+            sq[j_, int(r_.integers(0, mq))] = sq[i_, int(r_.integers(0, mq))] - \
+                float(r_.choice([1e-9, 3e-10, -1e-9, 5e-11]))
+        oq = np.round(r_.uniform(0, 10, size=nq), 2)
+        probes[f"stat.metrics.dscore#{k_}"] = (
+            lambda oq=oq, sq=sq: _mt.dscore(oq, sq),
+            [lambda: _mt.dscore(r_.uniform(size=8), r_.uniform(size=(8, 3)),
+                                eps=float(10.0 ** -r_.integers(9, 20)))])
     for lab, (main, others) in probes.items():
         with warnings.catch_warnings(), np.errstate(all="ignore"):
             warnings.simplefilter("ignore")
@@ -557,7 +571,7 @@ def run_histories(ctx):
         ctx.tag("history:other-options-in-between")
         ctx.evaluated()
         ctx.check("history.same-call-same-result", same_result(later, first, 0),
-                  f"{lab}|result-depends-on-options-of-earlier-calls",
+                  f"{lab.split('#')[0]}|result-depends-on-options-of-earlier-calls",
                   {"kind": "history-options", "function": lab},
                   lambda: {"first": np.asarray(first).ravel()[:4].tolist(),
                            "later": np.asarray(later).ravel()[:4].tolist()})
